@@ -17,6 +17,8 @@ FLAGS_c11 = -lquadmath
 FLAGS_c18 = -ldl
 FLAGS_c05 = -O2
 FLAGS_c04 = -Iharness/mpishim
+FLAGS_c01 = -Iharness/mpishim
+FLAGS_c10 = -Iharness/mpishim
 FLAGS_c07 = -Iharness/mpishim
 FLAGS_c08 = -Iharness/mpishim
 FLAGS_c19 = -Iharness/mpishim
